@@ -4,6 +4,7 @@ import (
 	"fmt"
 	"math"
 	"math/rand"
+	"reflect"
 	"sort"
 
 	"gopkg.in/typ.v4/slices"
@@ -239,7 +240,17 @@ func sortAll(c *core.Ctx, keys []int, r *core.Rand) bool {
 	}
 	// the same four sorts on element types of other sizes (move-minimising or
 	// index-sorting paths are chosen by element size)
-	switch r.Intn(4) {
+	switch r.Intn(6) {
+	case 4:
+		// an element type that has no == (a struct holding a slice): the Func sorts need none
+		if !sortFuncVariants(c, keys, "uncomparable", fail, func(k, i int) tgSl { return tgSl{k, i, []int{k}} }, func(e tgSl) (int, int) { return e.Key, e.Idx }) {
+			return false
+		}
+	case 5:
+		// interface elements holding values without == (slices)
+		if !sortFuncVariants(c, keys, "any(slices)", fail, func(k, i int) any { return []int{k, i} }, func(e any) (int, int) { v := e.([]int); return v[0], v[1] }) {
+			return false
+		}
 	case 0:
 		if !sortFuncVariants(c, keys, "176B", fail, func(k, i int) tgBig { return tgBig{Key: k, Idx: i} }, func(e tgBig) (int, int) { return e.Key, e.Idx }) {
 			return false
@@ -507,11 +518,15 @@ type tgHuge struct {
 	Idx  int
 }
 type tgTiny struct{ Key, Idx int16 }
+type tgSl struct {
+	Key, Idx int
+	Tag      []int
+}
 
 // sortFuncVariants runs SortFunc, SortDescFunc, SortStableFunc and SortStableDescFunc on
 // elements built from (key, original index) and judges permutation, order, stability
 // and that nothing beyond len(slice) was touched.
-func sortFuncVariants[E comparable](c *core.Ctx, keys []int, tname string, fail func(sig, msg string) bool, mkE func(k, i int) E, ki func(E) (int, int)) bool {
+func sortFuncVariants[E any](c *core.Ctx, keys []int, tname string, fail func(sig, msg string) bool, mkE func(k, i int) E, ki func(E) (int, int)) bool {
 	n := len(keys)
 	// keys as the element type can represent them (int16 truncation for the tiny type)
 	ekeys := make([]int, n)
@@ -531,7 +546,7 @@ func sortFuncVariants[E comparable](c *core.Ctx, keys []int, tname string, fail 
 	ptr := tname == "ptr"
 	same := func(a, b E) bool {
 		if !ptr {
-			return a == b
+			return reflect.DeepEqual(a, b)
 		}
 		ka, ia := ki(a)
 		kb, ib := ki(b)
